@@ -120,6 +120,18 @@ func c08templates() []c08tmpl {
 	add("thoughtful call", "«0:o»~.m(«1:int», «2:int», k: «3:int»)", true)
 	add("strict call", "«0:o»=.m(«1:int», «2:int», k: «3:int»)", true)
 	add("lonely list chain with nil elements", "[nil, «0:o», nil]&@m(«1:int», «2:int», k: «3:int»)", true)
+	// receiver then chain argument in every chain context and call form: the chain argument is a written
+	// sub-expression evaluated once even where the context has no use for its value (scalar chains)
+	for _, ch := range []string{"", "&", "~", "="} {
+		add("scalar "+ch+". var call: receiver, chain argument", "«0:int»"+ch+".(«1:int»)^idv", false)
+		add("scalar "+ch+". literal call: receiver, chain argument", "«0:int»"+ch+".(«1:int»){|x| x}", false)
+		add("scalar "+ch+". prop call: receiver, chain argument, args", "«0:o»"+ch+".(«1:int»)m(«2:int», «3:int»)", false)
+		add("list "+ch+"@ var call: receiver, chain argument", "«0:arr»"+ch+"@(«1:arr»)^idv", false)
+		add("list "+ch+"@ literal call: receiver, chain argument", "«0:arr»"+ch+"@(«1:arr»){|x| x}", false)
+		add("list "+ch+"@ prop call: receiver, chain argument, args", "«0:arr»"+ch+"@(«1:arr»)+(«2:int»)", false)
+		add("reduce "+ch+"$ var call: receiver, chain argument", "«0:arr»"+ch+"$(«1:int»)^gplus", false)
+		add("reduce "+ch+"$ prop call: receiver, chain argument, args", "«0:arr»"+ch+"$(«1:int»)+(«2:int»)", false)
+	}
 	return ts
 }
 
